@@ -218,7 +218,7 @@ func (e *kvElection) heartbeatLoop(ctx context.Context) {
 func (e *kvElection) handleHeartbeatFailure(err error) {
 	log := e.getLogger()
 	log.Error("demoting_due_to_heartbeat_failure",
-		append(e.logWithContext(e.ctx),
+		append(e.logWithContext(e.electionContext()),
 			zap.Error(err),
 			zap.String("error_type", classifyErrorType(err)),
 		)...,
@@ -235,7 +235,7 @@ func (e *kvElection) handleHeartbeatFailure(err error) {
 
 	if onDemote != nil {
 		log.Info("leader_demoted",
-			append(e.logWithContext(e.ctx),
+			append(e.logWithContext(e.electionContext()),
 				zap.String("reason", "heartbeat_failure"),
 			)...,
 		)
@@ -247,7 +247,7 @@ func (e *kvElection) handleHealthCheckFailure() {
 	log := e.getLogger()
 	failureCount := e.healthFailureCount.Load()
 	log.Error("demoting_due_to_health_check_failure",
-		append(e.logWithContext(e.ctx),
+		append(e.logWithContext(e.electionContext()),
 			zap.Int32("failure_count", failureCount),
 		)...,
 	)
@@ -263,7 +263,7 @@ func (e *kvElection) handleHealthCheckFailure() {
 
 	if onDemote != nil {
 		log.Info("leader_demoted",
-			append(e.logWithContext(e.ctx),
+			append(e.logWithContext(e.electionContext()),
 				zap.String("reason", "health_check_failure"),
 			)...,
 		)
